@@ -77,8 +77,18 @@ def _failed_kinds(ctx):
     return kinds
 
 
+# rules that read the call graph / the syntax tree, not the extracted statement templates: a template that
+# could not be extracted takes nothing away from them
+_NOT_TEMPLATE_RULES = {
+    "C17-R1", "C17-R2", "C17-R5", "C10-R1", "C10-R3", "C10-R4", "C10-R5", "C16-R1", "C16-R2", "C16-R3", "C16-R4",
+    "C08-R1", "C08-R2", "C15-R3", "C15-R5", "C06-R4", "C06-R10", "C06-R11",
+}
+
+
 def _mentions_kind(key, kinds):
     parts = key.split("|")
+    if parts[0] in _NOT_TEMPLATE_RULES:
+        return False
     return any(k in parts or any(p.split(".")[0] == k for p in parts) for k in kinds)
 
 
